@@ -60,6 +60,7 @@ type RunStat struct {
 	Blocked      int64
 	Deadlock     bool
 	Unwound      bool // the run was aborted (hang or deadlock): library locks may be left held
+	SoloUnwound  bool // a call did not terminate even alone and was unwound: run cut short
 	TraceHash    uint64
 	CaseHash     uint64 // workload x schedule identity
 	Nontrivial   bool
@@ -117,8 +118,17 @@ func taskBody(x *caller, id int, ops []Op, skip []bool, results []*OpResult, hp 
 // own step budget; one that exceeds it (or panics) is "solo-abnormal": it is
 // excluded from the simulated pass and from comparison (that is C05's
 // business, not C16's).
+// soloUnwound reports whether the last soloPass had to unwind an operation out
+// of library code (step budget exceeded). The panic that does this is raised at
+// a generated yield point, i.e. possibly where the original code could not
+// panic (between `sem.acquire()` and `defer sem.release()`, say): whatever the
+// library holds there stays held. Nothing that runs in this process afterwards
+// can be trusted, so the run ends there and the worker restarts.
+var soloUnwound bool
+
 func soloPass(s *Spec, pool []geojson.Object, opBudget int64, taskOrder []int) (results [][]*OpResult, steps int64, hps []harnessPanic) {
 	totalBudget := soloRunBudget(s.Tier)
+	soloUnwound = false
 	results = newTaskResults(s.Tasks)
 	var mu sync.Mutex
 	// operations already seen not to terminate normally in this pass: an
@@ -135,12 +145,18 @@ func soloPass(s *Spec, pool []geojson.Object, opBudget int64, taskOrder []int) (
 		}
 	}
 	for _, t := range taskOrder {
+		if soloUnwound {
+			break
+		}
 		done := make(chan struct{})
 		go func(t int) {
 			defer close(done)
 			verifsim.SetMode(verifsim.ModeSolo, opBudget)
 			x := &caller{pool: pool, task: t, sim: false}
 			for i := range s.Tasks[t] {
+				if soloUnwound {
+					break
+				}
 				if steps+verifsim.Steps() > totalBudget {
 					// the run as a whole is long enough: the remaining operations
 					// of this workload are left out (marked like non-terminating
@@ -176,6 +192,9 @@ func soloPass(s *Spec, pool []geojson.Object, opBudget int64, taskOrder []int) (
 				_ = goexit
 				if st := results[t][i].Status; st == StPanic || st == StAborted {
 					abnormal[opKey(&s.Tasks[t][i])] = st
+					if st == StAborted {
+						soloUnwound = true
+					}
 				}
 			}
 			steps += verifsim.Steps()
@@ -427,6 +446,13 @@ func runSpec(s *Spec, sched func(soloSteps int64), rl *raceLog) *RunResult {
 		rr.Infra = append(rr.Infra, fmt.Sprintf("harness panic in solo pass task %d: %v", hp.task, hp.val))
 	}
 	st.SoloSteps = soloSteps
+	if soloUnwound {
+		// an operation does not terminate even alone (C05's business) and had to
+		// be unwound: the run ends here, the worker restarts (see soloUnwound)
+		st.SoloUnwound = true
+		st.Unwound = true
+		return rr
+	}
 	if sched != nil {
 		sched(soloSteps)
 	}
@@ -520,7 +546,7 @@ func runSpec(s *Spec, sched func(soloSteps int64), rl *raceLog) *RunResult {
 	// attribute value mismatches: what does the call return on a fresh pool, alone?
 	for k := range rr.Violations {
 		v := &rr.Violations[k]
-		if v.Class == "value" || v.Class == "abnormal" {
+		if (v.Class == "value" || v.Class == "abnormal") && !st.Unwound {
 			v.Alone = aloneValue(s, v.Task, v.OpIndex)
 		}
 	}
